@@ -40,7 +40,13 @@ int wait_current_schedee(igris::dlist_base *head, int priority, void **future)
 int unwait_schedee_waiter(waiter *w)
 {
     linux_waiter *waiter = mcast_out(w, struct linux_waiter, w);
+
+    // like unwait_one: take the waiter off its wait list before waking it,
+    // otherwise it destroys its record while the node is still queued
+    system_lock();
+    w->lnk.unlink();
     waiter->event.signal();
+    system_unlock();
 
     return 0;
 }
